@@ -185,7 +185,9 @@ static void do_sim(vf_case *c) {
 	static const struct { const char *n; sim_fn f; } SIM[] = {{"ed_mul_sim_basic", ed_mul_sim_basic}, {"ed_mul_sim_trick", ed_mul_sim_trick}, {"ed_mul_sim_inter", ed_mul_sim_inter}, {"ed_mul_sim_joint", ed_mul_sim_joint}};
 	/* L37: the simultaneous forms do not reduce the scalars and their recoding buffers hold RLC_FP_BITS + 1 digits */
 	const char *kf_long = (mpz_sizeinbase(c->v[3], 2) > RLC_FP_BITS || mpz_sizeinbase(c->v[6], 2) > RLC_FP_BITS) ? "L37-ed-routines-refuse-long-scalars" : NULL;
-	for (unsigned i = 0; i < 4; i++) { ed_inject(p, &P, REP_AFF, 1); ed_inject(q, &Q, REP_AFF, 1); memset(r, 0x5A, sizeof(ed_st)); r->coord = BASIC; vf_reseed(); VF_TRY(th, SIM[i].f(r, p, bk, q, bm)); if (th) { vf_fail(kf_long, "%s raised %d", SIM[i].n, th); continue; } expect_ed(SIM[i].n, r, &E, 1, NULL); }
+	/* every routine with a separate result and with the result aliased to the first / the second point */
+	for (unsigned i = 0; i < 4; i++) for (int al = 0; al < 3; al++) { ed_inject(p, &P, REP_AFF, 1); ed_inject(q, &Q, REP_AFF, 1); memset(r, 0x5A, sizeof(ed_st)); r->coord = BASIC; vf_reseed(); ed_st *o = al == 1 ? p : al == 2 ? q : r; char w[64]; snprintf(w, sizeof w, "%s%s", SIM[i].n, al == 1 ? "[r == p]" : al == 2 ? "[r == q]" : "");
+		VF_TRY(th, SIM[i].f(o, p, bk, q, bm)); if (th) { vf_fail(kf_long, "%s raised %d", w, th); continue; } expect_ed(w, o, &E, 1, NULL); }
 	{ ed_t ps[2]; bn_t ks[2]; ed_new(ps[0]); ed_new(ps[1]); bn_new(ks[0]); bn_new(ks[1]); ed_inject(ps[0], &P, REP_AFF, 1); ed_inject(ps[1], &Q, REP_AFF, 1); bn_copy(ks[0], bk); bn_copy(ks[1], bm);
 		vf_reseed(); VF_TRY(th, ed_mul_sim_lot(r, ps, (const bn_t *)ks, 2)); if (th) vf_fail(NULL, "ed_mul_sim_lot(n=2) raised %d", th); else expect_ed("ed_mul_sim_lot(n=2)", r, &E, 1, NULL); }
 	if (edp_eq(&P, &EG)) { ed_inject(q, &Q, REP_AFF, 1); vf_reseed(); VF_TRY(th, ed_mul_sim_gen(r, bk, q, bm)); if (th) vf_fail(kf_long, "ed_mul_sim_gen raised %d", th); else expect_ed("ed_mul_sim_gen", r, &E, 1, NULL); }
@@ -224,7 +226,7 @@ static void do_map(vf_case *c) {
 	ed_t p, q; ed_new(p); ed_new(q); edp P, T; edp_init(&P); edp_init(&T); int dg;
 	VF_TRY(th, ed_map(p, msg, len)); transitions++; if (th) { vf_fail(NULL, "ed_map raised %d (len %zu)", th, len); return; }
 	if (!ed_extract(&P, p, &dg) || dg) vf_fail(NULL, "ed_map: result not canonical / not normalised"); else { if (!edp_on_curve(&EC_, &P)) vf_fail(NULL, "ed_map: result not on the curve"); edp_mul(&EC_, &T, &P, EN); if (!edp_is_id(&T)) vf_fail(NULL, "ed_map: result not in the prime-order subgroup"); if (edp_is_id(&P)) vf_fail(NULL, "ed_map: result is the neutral element"); }
-	VF_TRY(th, ed_map(q, msg, len)); if (th || ed_cmp(p, q) != RLC_EQ) vf_fail(NULL, "ed_map: not deterministic");
+	memset(q, 0xFF, sizeof(ed_st)); q->coord = BASIC; VF_TRY(th, ed_map(q, msg, len)); if (th || ed_cmp(p, q) != RLC_EQ) vf_fail(NULL, "ed_map: not deterministic (second call into an output point that held other data)");
 	if (len) { msg[len - 1] ^= 1; VF_TRY(th, ed_map(q, msg, len)); if (!th && ed_cmp(p, q) == RLC_EQ) vf_fail(NULL, "ed_map: last message bit ignored"); }
 	free(msg); edp_clear(&P); edp_clear(&T);
 }
